@@ -5,5 +5,6 @@ cd /verif
 export GOFLAGS=-mod=mod GOPROXY=off
 export GOCACHE=${GOCACHE:-/verif/cache/gocache}
 mkdir -p /verif/bin /verif/out /verif/cache /verif/evidence
+python3 /verif/tools/genall.py
 go build -o /verif/bin/vcheck ./cmd/vcheck
 /verif/bin/vcheck list
